@@ -137,6 +137,17 @@ def get_lexicon(rowid: int) -> _Lexicon:
     return _get_lexicon(conn, rowid)
 
 
+def find_lexicon_exactly(specifier: str) -> Optional[_Lexicon]:
+    """Return the lexicon whose id:version is *specifier*, literally."""
+    query = '''
+        SELECT DISTINCT rowid, id, label, language, email, license,
+                        version, url, citation, logo
+        FROM lexicons
+        WHERE id || ":" || version = ?
+    '''
+    return connect().execute(query, (specifier,)).fetchone()
+
+
 def _get_lexicon(conn: sqlite3.Connection, rowid: int) -> _Lexicon:
     query = '''
         SELECT DISTINCT rowid, id, label, language, email, license,
